@@ -94,6 +94,21 @@ static void surv_fail(const char *fmt, ...)
 }
 
 /* -------- helpers on contexts -------- */
+unsigned long verif_cache_refsum(struct cache *cache);       /* hooks/02 */
+static int open_policy = -1, open_cache_size;                 /* "never:<n>" variant of a scenario */
+/* no cache entry may stay referenced after a call, whether it failed or not */
+static void note_refs(kdump_ctx_t *c, const char *who)
+{
+	struct kdump_shared *sh = c->shared;
+	unsigned long pg = sh->cache ? verif_cache_refsum(sh->cache) : 0, mm = 0, rd = 0;
+	if (sh->fcache) { mm = verif_cache_refsum(sh->fcache->cache); rd = verif_cache_refsum(sh->fcache->fbcache); }
+	if (pg + mm + rd)
+		surv_fail("%s leaves cache entries referenced: page=%lu mmap=%lu read=%lu", who, pg, mm, rd);
+}
+static void parse_open_mode(const char *m)
+{
+	if (!strncmp(m, "never:", 6)) { open_policy = KDUMP_MMAP_NEVER; open_cache_size = atoi(m + 6); }
+}
 static kdump_ctx_t *open_ctx(const char *path, int *pfd)
 {
 	kdump_ctx_t *ctx;
@@ -102,6 +117,11 @@ static kdump_ctx_t *open_ctx(const char *path, int *pfd)
 	if (fd < 0) { perror(path); _exit(4); }
 	LIB(ctx = kdump_new());
 	if (!ctx) { fprintf(stderr, "setup: kdump_new failed\n"); _exit(4); }
+	if (open_policy >= 0) {
+		LIB(st = kdump_set_number_attr(ctx, "file.mmap_policy", open_policy));
+		if (st == KDUMP_OK && open_cache_size) LIB(st = kdump_set_number_attr(ctx, "cache.size", open_cache_size));
+		if (st != KDUMP_OK) { fprintf(stderr, "setup: open mode: %s\n", kdump_get_err(ctx)); _exit(4); }
+	}
 	LIB(st = kdump_open_fd(ctx, fd));
 	if (st != KDUMP_OK) { fprintf(stderr, "setup: open %s: %s\n", path, kdump_get_err(ctx)); _exit(4); }
 	*pfd = fd;
@@ -236,6 +256,7 @@ static void sc_clone(char **av, int ac)
 	note_held();
 	win_close();
 	if (!held_at_return) {
+		note_refs(ctx, "kdump_clone");
 		/* survivors: the original still reads, can be cloned again, both can be freed */
 		compare_read(ctx, path, KDUMP_MACHPHYSADDR, 0, 64, rootpgt, "original after clone");
 		if (cl) {
@@ -274,6 +295,7 @@ static void sc_open(char **av, int ac)
 	fstat(fd, &st1); pos1 = lseek(fd, 0, SEEK_CUR);
 	if (pos0 != pos1 || st0.st_size != st1.st_size) surv_fail("descriptor repositioned");
 	if (!held_at_return) {
+		note_refs(ctx, "kdump_open_fd");
 		if (st != KDUMP_OK && reopen_after_failure) {
 			/* the context survives a failed open: opening again must work */
 			LIB(st = kdump_open_fd(ctx, fd));
@@ -309,6 +331,7 @@ static void sc_reopen2(char **av, int ac)
 	note_held();
 	win_close();
 	if (!held_at_return) {
+		note_refs(ctx, "kdump_open_fd (second dump)");
 		if (st != KDUMP_OK) {
 			LIB(st = kdump_open_fd(ctx, fdb));
 			if (st != KDUMP_OK) surv_fail("second dump cannot be opened after the failed attempt: %s", kdump_get_err(ctx));
@@ -342,6 +365,7 @@ static void sc_read(char **av, int ac)
 	note_held();
 	win_close();
 	if (!held_at_return) {
+		note_refs(ctx, "kdump_read");
 		compare_read(ctx, path, as, addr, len, rootpgt, "read after failed read");
 		LIB(kdump_free(ctx));
 	} else
@@ -355,11 +379,13 @@ static void sc_readstr(char **av, int ac)
 	const char *path = av[0];
 	kdump_addrspace_t as = as_of(av[1]);
 	unsigned long long addr = argull(av, 2);
-	int fd;
-	kdump_ctx_t *ctx = open_ctx(path, &fd);
+	int fd, i;
+	kdump_ctx_t *ctx;
 	kdump_status st;
 	char *s = NULL;
 	unsigned long long rootpgt = ac > 3 ? argull(av, 3) : 0;
+	if (ac > 4) parse_open_mode(av[4]);
+	ctx = open_ctx(path, &fd);
 	if (as == KDUMP_KVADDR) set_xlat(ctx, rootpgt);
 	name_ctx_locks(ctx);
 	win_open();
@@ -367,6 +393,16 @@ static void sc_readstr(char **av, int ac)
 	note_held();
 	win_close();
 	if (st == KDUMP_OK) LIB(free(s));
+	if (!held_at_return) note_refs(ctx, "kdump_read_string");
+	if (!held_at_return && ac > 4) {
+		/* the caches are small: entries lost by the failed call would make these BUSY */
+		for (i = 0; i < 24 && !strcmp(surv, "ok"); ++i) {
+			char *t = NULL; kdump_status s2;
+			LIB(s2 = kdump_read_string(ctx, KDUMP_MACHPHYSADDR, (i % 6) * 0x1000ULL, &t));
+			if (s2 == KDUMP_OK) LIB(free(t));
+			else if (s2 == KDUMP_ERR_BUSY) surv_fail("read_string #%d after the failed one: %s", i, kdump_get_err(ctx));
+		}
+	}
 	if (!held_at_return) {
 		compare_read(ctx, path, as, addr, 16, rootpgt, "read after read_string");
 		LIB(kdump_free(ctx));
@@ -419,6 +455,7 @@ static void sc_attrs(char **av, int ac)
 	note_held();
 	win_close();
 	if (!held_at_return) {
+		note_refs(ctx, "attribute calls");
 		LIB(st = kdump_set_string_attr(ctx, "linux.uts.domainname", "after"));
 		if (st != KDUMP_OK) surv_fail("set after failure: %s", kdump_get_err(ctx));
 		LIB(st = kdump_get_string_attr(ctx, "linux.uts.domainname", &s));
@@ -455,6 +492,7 @@ static void sc_pagemap(char **av, int ac)
 	note_held();
 	win_close();
 	if (!held_at_return) {
+		note_refs(ctx, "page map calls");
 		LIB(st = kdump_get_attr(ctx, "memory.pagemap", &attr));
 		if (st == KDUMP_OK) {
 			idx = 0;
@@ -485,6 +523,7 @@ static void sc_vmcoreinfo(char **av, int ac)
 	note_held();
 	win_close();
 	if (!held_at_return) {
+		note_refs(ctx, "vmcoreinfo calls");
 		compare_read(ctx, path, KDUMP_MACHPHYSADDR, 0, 64, 0, "read after vmcoreinfo");
 		LIB(kdump_free(ctx));
 	}
@@ -511,6 +550,7 @@ static void sc_getxlat(char **av, int ac)
 	win_close();
 	if (st == KDUMP_OK) { LIB(addrxlat_sys_decref(sys)); LIB(addrxlat_ctx_decref(ax)); }
 	if (!held_at_return) {
+		note_refs(ctx, "kdump_get_addrxlat");
 		unsigned long d1 = 0, d2 = 0;
 		ref = open_ctx(path, &fd2);
 		if (rootpgt) set_rootpgt(ref, rootpgt);
@@ -873,6 +913,63 @@ static char *load_xcfg(const char *path)
 	return spec ? spec : strdup("");
 }
 
+/* "objects that existed before the call are still usable": translate probe addresses from every
+ * range of every map of the system (start, middle, end of the range) and walk every defined
+ * method directly; only "does not crash / hang" and a digest of the results are of interest */
+static unsigned long sys_use(addrxlat_ctx_t *ax, addrxlat_sys_t *sys)
+{
+	static const addrxlat_addrspace_t goal[ADDRXLAT_SYS_MAP_NUM] = {
+		[ADDRXLAT_SYS_MAP_HW] = ADDRXLAT_MACHPHYSADDR, [ADDRXLAT_SYS_MAP_KV_PHYS] = ADDRXLAT_KPHYSADDR,
+		[ADDRXLAT_SYS_MAP_KPHYS_DIRECT] = ADDRXLAT_KVADDR, [ADDRXLAT_SYS_MAP_MACHPHYS_KPHYS] = ADDRXLAT_KPHYSADDR,
+		[ADDRXLAT_SYS_MAP_KPHYS_MACHPHYS] = ADDRXLAT_MACHPHYSADDR };
+	static const addrxlat_addrspace_t src[ADDRXLAT_SYS_MAP_NUM] = {
+		[ADDRXLAT_SYS_MAP_HW] = ADDRXLAT_KVADDR, [ADDRXLAT_SYS_MAP_KV_PHYS] = ADDRXLAT_KVADDR,
+		[ADDRXLAT_SYS_MAP_KPHYS_DIRECT] = ADDRXLAT_KPHYSADDR, [ADDRXLAT_SYS_MAP_MACHPHYS_KPHYS] = ADDRXLAT_MACHPHYSADDR,
+		[ADDRXLAT_SYS_MAP_KPHYS_MACHPHYS] = ADDRXLAT_KPHYSADDR };
+	unsigned long h = 77; unsigned i; size_t j; int k;
+	for (i = 0; i < ADDRXLAT_SYS_MAP_NUM; ++i) {
+		const addrxlat_map_t *m = addrxlat_sys_get_map(sys, i);
+		size_t n = m ? addrxlat_map_len(m) : 0;
+		const addrxlat_range_t *r = m ? addrxlat_map_ranges(m) : NULL;
+		addrxlat_addr_t base = 0;
+		for (j = 0; j < n; ++j) {
+			addrxlat_addr_t pr[4] = { base, base + 0x123, base + r[j].endoff / 2, base + r[j].endoff };
+			for (k = 0; k < 4 && n <= 64; ++k) {
+				addrxlat_fulladdr_t fa; addrxlat_status s;
+				fa.as = src[i]; fa.addr = pr[k];
+				LIB(s = addrxlat_fulladdr_conv(&fa, goal[i], ax, sys));
+				h = (h * 1099511 + (unsigned long)s) * 31 + (s == ADDRXLAT_OK ? fa.addr : 0);
+				LIB(addrxlat_ctx_clear_err(ax));
+				if (r[j].meth != ADDRXLAT_SYS_METH_NONE && i != ADDRXLAT_SYS_MAP_HW) {
+					addrxlat_step_t step; memset(&step, 0, sizeof step);
+					step.ctx = ax; step.sys = sys; step.meth = addrxlat_sys_get_meth(sys, r[j].meth);
+					LIB(s = addrxlat_launch(&step, pr[k]));
+					if (s == ADDRXLAT_OK) LIB(s = addrxlat_walk(&step));
+					h = (h * 1099511 + (unsigned long)s) * 31 + (s == ADDRXLAT_OK ? step.base.addr : 0);
+					LIB(addrxlat_ctx_clear_err(ax));
+				}
+			}
+			base += r[j].endoff + 1;
+		}
+	}
+	/* methods that are defined but (no longer / not yet) referenced by a map */
+	for (i = 0; i < ADDRXLAT_SYS_METH_NUM; ++i) {
+		static const addrxlat_addr_t pa[] = { 0, 0x123, 0x10456, 0x1234560, 0xf000000000000123ULL, 0xf000000000010456ULL,
+			0xc000000001234560ULL, 0xffffffff80000000ULL };
+		const addrxlat_meth_t *m = addrxlat_sys_get_meth(sys, i);
+		if (m->kind == ADDRXLAT_NOMETH || m->kind == ADDRXLAT_CUSTOM) continue;
+		for (k = 0; k < (int)(sizeof pa / sizeof pa[0]); ++k) {
+			addrxlat_step_t step; addrxlat_status s; memset(&step, 0, sizeof step);
+			step.ctx = ax; step.sys = sys; step.meth = m;
+			LIB(s = addrxlat_launch(&step, pa[k]));
+			if (s == ADDRXLAT_OK) LIB(s = addrxlat_walk(&step));
+			h = (h * 1099511 + (unsigned long)s) * 31 + (s == ADDRXLAT_OK ? step.base.addr : 0);
+			LIB(addrxlat_ctx_clear_err(ax));
+		}
+	}
+	return h;
+}
+
 static void sc_wb_sys_os(char **av, int ac)
 {
 	addrxlat_ctx_t *ax; addrxlat_sys_t *sys, *ref;
@@ -906,10 +1003,14 @@ static void sc_wb_sys_os(char **av, int ac)
 	LIB(st3 = addrxlat_sys_os_init(ref, ax, n, opts));
 	out(" shape=st:%d;ref:%d;digest:%lx", (int)st, (int)st3, st == ADDRXLAT_OK ? sys_digest(sys) : 0UL);
 	if (st != ADDRXLAT_OK && oom_failed_calls != fb) {
+		/* the partially built system is still an object of the caller's: use it */
+		(void)sys_use(ax, sys);          /* under the case watchdog */
 		LIB(st2 = addrxlat_sys_os_init(sys, ax, n, opts));
 		if (st2 != st3) surv_fail("os_init repeated after the failure gives status %d, a fresh system %d", st2, st3);
 		else if (st2 == ADDRXLAT_OK && sys_digest(sys) != sys_digest(ref))
 			surv_fail("os_init repeated after the failure builds a different system");
+		else if (st2 == ADDRXLAT_OK && sys_use(ax, sys) != sys_use(ax, ref))
+			surv_fail("os_init repeated after the failure builds a system that translates differently");
 	} else if (st == ADDRXLAT_OK && st3 == ADDRXLAT_OK && sys_digest(sys) != sys_digest(ref))
 		surv_fail("two identical os_init calls build different systems");
 	LIB(addrxlat_sys_decref(sys)); LIB(addrxlat_sys_decref(ref)); LIB(addrxlat_ctx_decref(ax));
